@@ -16,6 +16,11 @@ Record tcall := mkTCall {
   tc_now0 : Z; tc_now1 : Z
 }.
 
+(* one call in a sequence on ONE provider: which of its verifiers is asked for
+   (Provider.AccessTokenVerifier / IDTokenHintVerifier / JWTProfileVerifier) *)
+Inductive pkind := PAccess | PHint | PAssertion.
+Record pstep := mkPStep { ps_kind : pkind; ps_tok : token; ps_mid : middle; ps_now0 : Z; ps_now1 : Z }.
+
 Inductive input :=
 | IFind (kid use alg : string) (keys : list jwk)
     (* oidc.FindMatchingKey(kid, use, alg, keys...) *)
@@ -28,6 +33,16 @@ Inductive input :=
        empty at first); before each call the endpoint may serve another list *)
 | IVerifySeq (k : vkind) (v : verifier) (ks : keyset) (steps : list vstep)
 | IProvider (p : provider) (hint : bool) (t : token) (m : middle) (now0 now1 : Z)
+| IProfileSig (ks : keyset) (t : token) (parsed : string)
+    (* oidc.CheckSignature(token, parsed, claims, nil, ks) on the per-client storage
+       key set (op.jwtProfileKeySet{storage, client} = KSProfile client store).  The
+       type is not exported: it is reached through op.VerifyJWTAssertion with claims
+       of issuer [client] that pass every earlier check and a SubjectCheck admitting
+       anything; the claims type records no algorithm (Ok "") *)
+| IProviderSeq (p : provider) (store : list (string * string * jwk)) (steps : list pstep)
+    (* ONE op.NewProvider(options...) over one storage (signing keys p_storage_keys,
+       client keys [store]); for every step the verifier the provider hands out for
+       that step's kind, on that step's token - in this order, on this one instance *)
 | ITenants (hint : bool) (allowed : list string) (overlap : bool) (calls : list tcall).
     (* ONE op.NewProvider with a per-request issuer and its DEFAULT key set over a
        storage whose KeySet depends on the issuer in the context; the verifier the
@@ -51,6 +66,20 @@ Inductive observed :=
 Definition tenant_verifier (allowed : list string) (c : tcall) : verifier :=
   mkVerifier (tc_issuer c) "" 0 0 0 None None allowed.
 
+(* Provider.JWTProfileVerifier: NewJWTProfileVerifier(storage, issuer, 1h, 1s), SubjectIsIssuer *)
+Definition assertion_verifier (p : provider) : verifier :=
+  mkVerifier (p_issuer p) "" 1000000000 3600000000000 0 None None [].
+
+(* a provider keeps nothing between calls: each step is the single call *)
+Definition run_provider_step (verify : jwk -> sigentry -> string -> bool) (p : provider)
+           (store : list (string * string * jwk)) (s : pstep) : outcome :=
+  match ps_kind s with
+  | PAccess => run_provider_verifier verify p false (ps_tok s) (ps_mid s) (ps_now0 s)
+  | PHint => run_provider_verifier verify p true (ps_tok s) (ps_mid s) (ps_now0 s)
+  | PAssertion => run_verifier verify (VJWTAssertion false) (assertion_verifier p) (KSProfile "" store)
+                               (ps_tok s) (ps_mid s) (ps_now0 s)
+  end.
+
 Definition model (i : input) : observed :=
   match i with
   | IFind kid use alg keys => OFind (find_matching_key kid use alg keys)
@@ -61,6 +90,9 @@ Definition model (i : input) : observed :=
       (* a verifier keeps no state between calls *)
       OVerifySeq (map (fun s => run_verifier sym_verify k v ks (vs_tok s) (vs_mid s) (vs_now0 s)) steps)
   | IProvider p hint t m now0 _ => OVerify (run_provider_verifier sym_verify p hint t m now0)
+  | IProviderSeq p store steps => OVerifySeq (map (run_provider_step sym_verify p store) steps)
+  | IProfileSig ks t parsed =>
+      OSig (match check_signature sym_verify [] ks t parsed with Ok _ => Ok "" | Err e => Err e end)
   | ITenants hint allowed _ calls =>
       OVerifySeq (map (fun c => run_verifier sym_verify (if hint then VIDTokenHint else VAccessToken)
                                   (tenant_verifier allowed c) (KSOpenID (tc_keys c))
@@ -75,6 +107,19 @@ Definition alg_reported (k : vkind) (t : token) (alg : string) : bool :=
   | _ => alg =s sig_alg t
   end.
 
+(* GROUND TRUTH: the key set verifier k is configured with FOR THIS CALL.
+   A request object comes attached to an authorization request of client
+   [a_client a]: the configured key set is the keys registered for THAT client -
+   whichever client the (not yet verified) object names as its issuer.  An
+   assertion speaks for the client it names as issuer (that is the identity the
+   caller goes on with); the other verifiers have one key set. *)
+Definition trusted_keyset (k : vkind) (ks : keyset) (c : claims) : keyset :=
+  match k with
+  | VRequestObject a => bind_profile ks (a_client a)
+  | VJWTAssertion _ => bind_profile ks (c_iss c)
+  | VRpIDToken | VAccessToken | VIDTokenHint => ks
+  end.
+
 (* claims c' handed back by verifier k: they are the decoding of the middle
    segment, whose bytes are the payload a trusted signature covers - made by the
    key the key set designates, not by one of several possible keys (sig_believable) *)
@@ -83,7 +128,7 @@ Definition accept_ok (k : vkind) (v : verifier) (ks : keyset) (t : token) (m : m
   match m with
   | MidOk bytes c =>
       claims_eqb c' (returned_claims k c)
-      && sig_believable (verifier_algs k v) (verifier_keyset k ks c) t bytes
+      && sig_believable (verifier_algs k v) (trusted_keyset k ks c) t bytes
       && alg_reported k t alg
   | _ => false
   end.
@@ -147,6 +192,24 @@ Definition configured_keyset (p : provider) (hint : bool) : keyset :=
 Definition configured_verifier (p : provider) (hint : bool) : verifier :=
   mkVerifier (p_issuer p) "" 0 0 0 None None (if hint then p_hint_algs p else p_at_algs p).
 
+(* One provider, several calls: every answer is judged against the key set and
+   allow-list configured for the verifier kind of ITS step (an assertion: the
+   client keys registered for the issuer it names, under the header's kid) -
+   whichever verifier was handed out, whatever was looked up, before. *)
+Definition provider_step_ok (p : provider) (store : list (string * string * jwk)) (s : pstep) (o : outcome) : bool :=
+  match ps_kind s with
+  | PAccess => verify_step_ok VAccessToken (configured_verifier p false) (configured_keyset p false) (ps_tok s) (ps_mid s) o
+  | PHint => verify_step_ok VIDTokenHint (configured_verifier p true) (configured_keyset p true) (ps_tok s) (ps_mid s) o
+  | PAssertion => verify_step_ok (VJWTAssertion false) (assertion_verifier p) (KSProfile "" store) (ps_tok s) (ps_mid s) o
+  end.
+
+Fixpoint provider_seq_spec (p : provider) (store : list (string * string * jwk)) (steps : list pstep) (obs : list outcome) : bool :=
+  match steps, obs with
+  | [], [] => true
+  | s :: r, o :: ro => provider_step_ok p store s o && provider_seq_spec p store r ro
+  | _, _ => false
+  end.
+
 Definition spec (i : input) (o : observed) : bool :=
   match i, o with
   | IFind kid use alg keys, OFind r => find_spec kid use alg keys r
@@ -159,8 +222,32 @@ Definition spec (i : input) (o : observed) : bool :=
   | IProvider p hint t m _ _, OVerify o =>
       verify_step_ok (if hint then VIDTokenHint else VAccessToken)
                      (configured_verifier p hint) (configured_keyset p hint) t m o
+  | IProviderSeq p store steps, OVerifySeq l => provider_seq_spec p store steps l
+  | IProfileSig ks t parsed, OSig (Ok alg) => sig_believable [] ks t parsed && (alg =s "")
+  | IProfileSig ks t parsed, OSig (Err _) => negb (sig_complete [] ks t parsed)
   | ITenants hint allowed _ calls, OVerifySeq l => tenants_spec hint allowed calls l
   | _, _ => false
+  end.
+
+(* Guard of the central theorem.  No client has the empty client id: a storage
+   asked for the key of client "" has none.  (A request object naming neither
+   iss nor client_id passes ParseRequestObject's consistency checks and is then
+   looked up under client ""; with a storage that answers such a lookup it would
+   be believed for ANY authorization request.) *)
+Definition store_named (ks : keyset) : bool :=
+  match ks with
+  | KSProfile _ store => forallb (fun x => negb (fst (fst x) =s "")) store
+  | _ => true
+  end.
+
+Definition step_wf (k : vkind) (ks : keyset) : bool :=
+  match k with VRequestObject _ => store_named ks | _ => true end.
+
+Definition wf (i : input) : bool :=
+  match i with
+  | IVerify k _ ks _ _ _ _ => step_wf k ks
+  | IVerifySeq k _ ks _ => step_wf k ks
+  | _ => true
   end.
 
 Definition obs_eqb (a b : observed) : bool :=
@@ -196,6 +283,11 @@ Definition path (i : input) (o : observed) : nat :=
   | ICheckSig _ _ _ _, OSig (Err e) => 51 + err_code e
   | IVerify k _ _ _ _ _ _, OVerify (Reject EParse) => 0
   | IVerify k _ _ _ _ _ _, OVerify o => kind_base k + outcome_code o
+  | IProviderSeq _ _ steps, OVerifySeq l =>   (* assertion steps / answers with claims, capped *)
+      977 + 10 * Nat.min 3 (List.length (filter (fun s => match ps_kind s with PAssertion => true | _ => false end) steps))
+      + Nat.min 9 (List.length (filter (fun o => match o with Reject _ => false | _ => true end) l))
+  | IProfileSig _ _ _, OSig (Ok _) => 950
+  | IProfileSig _ _ _, OSig (Err e) => 951 + err_code e
   | IProvider p hint _ _ _ _, OVerify (Reject EParse) => 0
   | IProvider p hint _ _ _ _, OVerify o =>
       800 + (if hint then 50 else 0) + outcome_code o
